@@ -212,7 +212,7 @@ public:
     constexpr auto operator[](index_constant<I> index) & -> auto&
     {
         static_assert(I < sizeof...(Ts));
-        TETL_PRECONDITION(I == index());
+        TETL_PRECONDITION(I == this->index());
         return _union[index];
     }
 
@@ -222,7 +222,7 @@ public:
     constexpr auto operator[](index_constant<I> index) const& -> auto const&
     {
         static_assert(I < sizeof...(Ts));
-        TETL_PRECONDITION(I == index());
+        TETL_PRECONDITION(I == this->index());
         return _union[index];
     }
 
@@ -232,7 +232,7 @@ public:
     constexpr auto operator[](index_constant<I> index) && -> auto&&
     {
         static_assert(I < sizeof...(Ts));
-        TETL_PRECONDITION(I == index());
+        TETL_PRECONDITION(I == this->index());
         return etl::move(_union)[index];
     }
 
@@ -242,7 +242,7 @@ public:
     constexpr auto operator[](index_constant<I> index) const&& -> auto const&&
     {
         static_assert(I < sizeof...(Ts));
-        TETL_PRECONDITION(I == index());
+        TETL_PRECONDITION(I == this->index());
         return etl::move(_union)[index];
     }
 
